@@ -9,9 +9,11 @@ import HawkModel.Gen.CallGraph
     * `plain_calls_acyclic`          generic: the certificate (plain calls go up in the node numbering) excludes
       every closed walk of plain calls.
     * `unguarded_acyclic`, `hawk_plain_calls_acyclic`, `hawk_stack_bounded_partial`: the instance for libhawk.
-      PARTIAL: the residual edges (unguarded recursion cycles: `Gen.residualGroups`) are excluded; they are real,
-      see `residual_walks_closed` + `closed_walk_unbounded`, and must all be known (`residual_groups_known`,
-      `residual_edges_known`: group by group and call site by call site).
+      PARTIAL: residual edges (unguarded recursion cycles, `Gen.residualGroups` - none are left in the current tree;
+      a new one is real, see `residual_walks_closed` + `closed_walk_unbounded`, and breaks `residual_groups_known`),
+      and the classes beyond the first `nLimitClasses` are assumptions with the reason given in
+      extract/callgraph.py - in particular `tree-depth`: destructor and deparser recurse as deep as the parse tree,
+      which the parser bounds; every call site of those is pinned by `residual_edges_known`.
     * `defaults_positive`, `cli_limits_enforced`, `model_defaults_match`.
   Behavioural half (over the counter arithmetic of `Depth`): `guard_threshold`, `descend_iff_fits`,
   `stack_guard_threshold`, `reject_iff_exceeds`, `reject_names_exceeded_limit`, `within_limit_unaffected`,
@@ -124,8 +126,7 @@ theorem residual_accounted :
 
 /-- the unguarded recursion cycles that are known findings (KNOWN_FINDINGS.txt carries the same names);
     a new unguarded cycle - e.g. a guard removed - makes this theorem fail -/
-def knownUnguarded : List String :=
-  ["hawk_clrpt", "hawk_rtx_refdownval", "parse_statement", "print_expr", "print_stmts", "run_statement"]
+def knownUnguarded : List String := []
 
 theorem residual_groups_known : ∀ g ∈ CallGraph.residualGroups, g ∈ knownUnguarded := by decide
 
@@ -135,21 +136,17 @@ theorem residual_groups_known : ∀ g ∈ CallGraph.residualGroups, g ∈ knownU
     Regenerate with `python3 extract/callgraph.py --sites` after a reviewed change; removing sites (a repair) needs no
     update. -/
 def knownResidualSiteIds : List Nat := [
-  4910062, 7354501, 27057555, 89814030, 109459226, 164522915, 300311399, 419941458,
-  472273140, 483499737, 484911450, 490934495, 519682834, 546356594, 570527602, 583685268,
-  657953312, 717221731, 744145359, 770135888, 802894717, 826162348, 848992113, 891567567,
-  1085377227, 1108807182, 1149179490, 1185593408, 1203528065, 1249646398, 1256039768, 1270940016,
-  1307742785, 1327925182, 1340184560, 1373207877, 1403368870, 1429209767, 1476495419, 1480400543,
-  1485087434, 1509651496, 1540725737, 1569036070, 1628821084, 1656803284, 1663141689, 1791931288,
-  1824372499, 1845846751, 1886009214, 1968928514, 2004557919, 2094605236, 2135141319, 2146829993,
-  2164569080, 2185566364, 2219458917, 2238735505, 2245578595, 2291232089, 2306183753, 2310903865,
-  2358858287, 2377967218, 2422221530, 2580352888, 2599256474, 2658383315, 2713726608, 2720964984,
-  2722429466, 2726534275, 2781423069, 2817749248, 2826561837, 2848457496, 2862186312, 2916399133,
-  2958809691, 3002420710, 3012024355, 3070625408, 3125925725, 3161274605, 3171627600, 3175074940,
-  3233990904, 3269249619, 3286730014, 3375188986, 3393763215, 3403435554, 3425467926, 3447424282,
-  3502668978, 3534915141, 3569176767, 3576256680, 3613736371, 3662180466, 3667301077, 3674715529,
-  3722564936, 3731263283, 3834863945, 3849371412, 3863673469, 3875493651, 3935384455, 3960007458,
-  4048297145, 4067150916, 4074445382, 4146190413, 4169799292, 4232014224, 4269517805
+  27057555, 164522915, 300311399, 472273140, 519682834, 657953312, 717221731, 744145359,
+  770135888, 802894717, 826162348, 848992113, 891567567, 1085377227, 1108807182, 1149179490,
+  1185593408, 1203528065, 1249646398, 1256039768, 1270940016, 1307742785, 1340184560, 1403368870,
+  1429209767, 1476495419, 1485087434, 1509651496, 1569036070, 1628821084, 1656803284, 1791931288,
+  1824372499, 1845846751, 1968928514, 2004557919, 2123206196, 2135141319, 2146829993, 2185566364,
+  2306183753, 2310903865, 2358858287, 2377967218, 2580352888, 2599256474, 2658383315, 2713726608,
+  2720964984, 2722429466, 2781423069, 2817749248, 2826561837, 2862186312, 3002420710, 3012024355,
+  3070625408, 3125925725, 3171627600, 3175074940, 3233990904, 3286730014, 3375188986, 3393763215,
+  3403435554, 3425467926, 3447424282, 3502668978, 3569176767, 3613736371, 3662180466, 3674715529,
+  3731263283, 3834863945, 3849371412, 3863673469, 3875493651, 3960007458, 4048297145, 4067150916,
+  4074445382, 4169799292
 ]
 
 theorem residual_edges_known : ∀ i ∈ CallGraph.residualSiteIds, i ∈ knownResidualSiteIds := by decide +kernel
@@ -255,7 +252,7 @@ theorem within_limit_unaffected (l : Limits) (f : Family) (n : Nat)
     the second phase is allowed to do - the run behaves like the second phase alone -/
 theorem phase_two_unaffected (l : Limits) (d n : Nat)
     (h : ∀ k, within l k (peakOf (.exitRec d) k 0)) : outcome l (.exitRec d) n = outcome l .recur n := by
-  let P : List Req := [⟨Kind.blockParse, 1⟩, ⟨Kind.exprParse, 1⟩, ⟨Kind.exprParse, 2⟩, ⟨Kind.exprParse, 3⟩]
+  let P : List Req := [⟨Kind.blockParse, 1⟩, ⟨Kind.blockParse, 2⟩, ⟨Kind.exprParse, 1⟩, ⟨Kind.exprParse, 2⟩, ⟨Kind.exprParse, 3⟩]
   let A : List Req := [⟨Kind.blockRun, 1⟩, ⟨Kind.exprRun, 1⟩, ⟨Kind.exprRun, 2⟩, ⟨Kind.exprRun, 3⟩]
   have e1 : ∀ m, requests (.exitRec d) m = P ++ (((A ++ recurFrom d 0) ++ A) ++ recurFrom m 0) := fun _ => rfl
   have e2 : requests .recur n = P ++ (A ++ recurFrom n 0) := rfl
